@@ -1192,4 +1192,452 @@ theorem from_path_windows (idna : Idna) (s : List Nat) (u : Url)
         have hz2 : 0 ∉ share := fun hm => (hc 0 (List.mem_append_right _ hm)).2 rfl
         exact ⟨hpre0, hz1, by omega, hz2, hbad.2⟩
 
+/-! ### the path of the URL made from a POSIX path; round trip -/
+
+/-- the piece the encode loop appends for one scalar -/
+def piece (f : Nat → Bool) (c : Nat) : List Nat :=
+  if c ≥ 0x80 then Impl.pctEncodeChar c else if f c then [c] else pctByte c
+
+theorem percentEncode_cons' (f : Nat → Bool) (c : Nat) (cs : List Nat) :
+    Impl.percentEncode f (c :: cs) = piece f c ++ Impl.percentEncode f cs := percentEncode_cons f c cs
+
+theorem hexUpper_tbl : ∀ n, n < 16 →
+    (hexDigitUpper n = 0x32 → n = 2) ∧ ((hexDigitUpper n ||| 0x20) = 0x65 → n = 14) := by decide
+
+/-- a piece is the kept scalar itself, or starts with a `%XX` that is not `%2E` / `%2e` -/
+theorem piece_cases (f : Nat → Bool) (hdot : f 0x2E = true) (d : Nat) (hd : d ≤ 0x10FFFF) :
+    (piece f d = [d] ∧ d < 0x80 ∧ f d = true) ∨
+    (∃ h1 h2 more, piece f d = 0x25 :: h1 :: h2 :: more ∧ ¬(h1 = 0x32 ∧ (h2 ||| 0x20) = 0x65)) := by
+  unfold piece
+  by_cases h : d ≥ 0x80
+  · rw [if_pos h]
+    right
+    obtain ⟨b, t, e, hb1, hb2, -⟩ := utf8EncodeChar_hi d h hd
+    unfold Impl.pctEncodeChar
+    rw [Impl.encodeUtf8Char_eq d hd, e, List.flatMap_cons]
+    refine ⟨_, _, _, rfl, ?_⟩
+    rintro ⟨h1, -⟩
+    have := (hexUpper_tbl (b / 16) (by omega)).1 h1
+    omega
+  · rw [if_neg h]
+    cases hf : f d with
+    | true => left; exact ⟨by simp, by omega, rfl⟩
+    | false =>
+      right
+      simp only [Bool.false_eq_true, if_false]
+      refine ⟨_, _, [], rfl, ?_⟩
+      rintro ⟨h1, h2⟩
+      have e1 := (hexUpper_tbl (d / 16) (by omega)).1 h1
+      have e2 := (hexUpper_tbl (d % 16) (by omega)).2 h2
+      have : d = 0x2E := by omega
+      rw [this, hdot] at hf
+      cases hf
+
+theorem piece_len (f : Nat → Bool) (d : Nat) : piece f d = [d] ∨ 3 ≤ (piece f d).length := by
+  unfold piece
+  split
+  · right; exact pctEncodeChar_len d
+  · split
+    · left; rfl
+    · right; simp [pctByte]
+
+/-- an encoded string never starts with an escaped dot -/
+theorem enc_no_escapedDot (f : Nat → Bool) (hdot : f 0x2E = true) (hpct : f 0x25 = false)
+    (t : List Nat) (ht : ∀ c ∈ t, Spec.isScalar c = true) (b c : Nat) (rest : List Nat)
+    (h : Impl.percentEncode f t = 0x25 :: b :: c :: rest) : ¬(b = 0x32 ∧ (c ||| 0x20) = 0x65) := by
+  cases t with
+  | nil => simp [Impl.percentEncode] at h
+  | cons d t' =>
+    rw [percentEncode_cons'] at h
+    rcases piece_cases f hdot d (scalar_le d (ht d List.mem_cons_self)) with ⟨hp, -, hf⟩ | ⟨h1, h2, more, hp, hne⟩
+    · rw [hp] at h
+      simp only [List.cons_append, List.nil_append, List.cons.injEq] at h
+      rw [h.1, hpct] at hf; cases hf
+    · rw [hp] at h
+      simp only [List.cons_append, List.cons.injEq, true_and] at h
+      rw [← h.1, ← h.2.1]; exact hne
+
+theorem percentEncode_one (f : Nat → Bool) (s : List Nat) (a : Nat)
+    (h : Impl.percentEncode f s = [a]) : s = [a] := by
+  match s with
+  | [] => simp [Impl.percentEncode] at h
+  | [c] =>
+    rw [percentEncode_cons'] at h
+    rcases piece_len f c with hp | hp
+    · rw [hp] at h; simpa [Impl.percentEncode] using h
+    · have := congrArg List.length h
+      simp only [List.length_append, List.length_cons, List.length_nil] at this
+      omega
+  | c :: d :: cs =>
+    rw [percentEncode_cons', percentEncode_cons'] at h
+    have := congrArg List.length h
+    simp only [List.length_append, List.length_cons, List.length_nil] at this
+    rcases piece_len f c with hp | hp <;> rcases piece_len f d with hq | hq
+    · rw [hp, hq] at this; simp at this
+    · omega
+    · omega
+    · omega
+
+theorem escapedDot_iff (a b c : Nat) :
+    Impl.escapedDot [a, b, c] = true ↔ a = 0x25 ∧ b = 0x32 ∧ (c ||| 0x20) = 0x65 := by
+  simp [Impl.escapedDot, and_assoc]
+
+theorem enc_singleDot (f : Nat → Bool) (hdot : f 0x2E = true) (hpct : f 0x25 = false)
+    (t : List Nat) (ht : ∀ c ∈ t, Spec.isScalar c = true) :
+    Impl.singleDot (Impl.percentEncode f t) = true ↔ t = [0x2E] := by
+  constructor
+  · intro h
+    unfold Impl.singleDot at h
+    split at h
+    · rename_i a he
+      have : a = 0x2E := by simpa using h
+      subst this
+      exact percentEncode_one f t _ he
+    · rename_i a b c he
+      rw [he, escapedDot_iff] at h
+      obtain ⟨rfl, hb, hc⟩ := h
+      exact absurd ⟨hb, hc⟩ (enc_no_escapedDot f hdot hpct t ht b c [] he)
+    · cases h
+  · intro h
+    subst h
+    rw [percentEncode_ascii_noenc f _ _ (by omega) hdot]
+    simp [Impl.percentEncode, Impl.singleDot]
+
+theorem enc_doubleDot (f : Nat → Bool) (hdot : f 0x2E = true) (hpct : f 0x25 = false)
+    (t : List Nat) (ht : ∀ c ∈ t, Spec.isScalar c = true) :
+    Impl.doubleDot (Impl.percentEncode f t) = true ↔ t = [0x2E, 0x2E] := by
+  constructor
+  · intro h
+    unfold Impl.doubleDot at h
+    split at h
+    · rename_i a b he
+      simp only [Bool.and_eq_true, beq_iff_eq] at h
+      obtain ⟨rfl, rfl⟩ := h
+      exact percentEncode_two f t _ _ he
+    · rename_i a b c d he
+      simp only [Bool.or_eq_true, Bool.and_eq_true, beq_iff_eq, escapedDot_iff] at h
+      rcases h with ⟨rfl, rfl, hc, hd⟩ | ⟨⟨rfl, hb, hc⟩, -⟩
+      · exfalso
+        cases t with
+        | nil => simp [Impl.percentEncode] at he
+        | cons t0 t' =>
+          rw [percentEncode_cons'] at he
+          rcases piece_cases f hdot t0 (scalar_le t0 (ht t0 List.mem_cons_self)) with
+            ⟨hp, -, -⟩ | ⟨h1, h2, more, hp, -⟩
+          · rw [hp] at he
+            simp only [List.cons_append, List.nil_append, List.cons.injEq] at he
+            exact enc_no_escapedDot f hdot hpct t' (fun x hx => ht x (List.mem_cons_of_mem _ hx))
+              c d [] he.2 ⟨hc, hd⟩
+          · rw [hp] at he
+            simp only [List.cons_append, List.cons.injEq] at he
+            omega
+      · exact absurd ⟨hb, hc⟩ (enc_no_escapedDot f hdot hpct t ht b c _ he)
+    · rename_i a b c d e g he
+      simp only [Bool.and_eq_true, escapedDot_iff] at h
+      obtain ⟨⟨rfl, hb, hc⟩, -⟩ := h
+      exact absurd ⟨hb, hc⟩ (enc_no_escapedDot f hdot hpct t ht b c _ he)
+    · cases h
+  · intro h
+    subst h
+    rw [percentEncode_ascii_noenc f _ _ (by omega) hdot, percentEncode_ascii_noenc f _ _ (by omega) hdot]
+    simp [Impl.percentEncode, Impl.doubleDot]
+
+theorem splitOnP_congr (p q : Nat → Bool) (l : List Nat) (h : ∀ c ∈ l, p c = q c) :
+    splitOnP p l = splitOnP q l := by
+  induction l with
+  | nil => rfl
+  | cons c cs ih =>
+    have ih' := ih (fun x hx => h x (List.mem_cons_of_mem _ hx))
+    have hc := h c List.mem_cons_self
+    cases hq : q c with
+    | true => rw [splitOnP_cons_sep p c cs (by rw [hc, hq]), splitOnP_cons_sep q c cs hq, ih']
+    | false => rw [splitOnP_cons_other p c cs (by rw [hc, hq]), splitOnP_cons_other q c cs hq, ih']
+
+theorem splitOnP_append_nosep (p : Nat → Bool) (a l : List Nat) (ha : ∀ c ∈ a, p c = false) :
+    splitOnP p (a ++ l) = (a ++ (splitOnP p l).headD []) :: (splitOnP p l).tail := by
+  induction a with
+  | nil =>
+    cases h : splitOnP p l with
+    | nil => exact absurd h (splitOnP_ne_nil p l)
+    | cons x t => simp [h]
+  | cons c cs ih =>
+    rw [List.cons_append, splitOnP_cons_other p c _ (ha c List.mem_cons_self),
+      ih (fun x hx => ha x (List.mem_cons_of_mem _ hx))]
+    simp
+
+theorem piece_eq_enc (f : Nat → Bool) (c : Nat) : piece f c = Impl.percentEncode f [c] := by
+  rw [percentEncode_cons']; simp [Impl.percentEncode]
+
+theorem piece_no_slash (f : Nat → Bool) (c : Nat) (hc : Spec.isScalar c = true) (hne : c ≠ 0x2F) :
+    ∀ x ∈ piece f c, (x == 0x2F) = false := by
+  intro x hx
+  rw [piece_eq_enc] at hx
+  rcases percentEncode_mem f [c] (by simpa using hc) x hx with ⟨hm, -, -⟩ | h25 | hhex
+  · simp only [List.mem_singleton] at hm; subst hm; simpa using hne
+  · subst h25; decide
+  · rw [isUpperHex_iff] at hhex
+    simp only [beq_eq_false_iff_ne]; omega
+
+/-- splitting the encoded text on '/' = encoding the pieces of the split input -/
+theorem splitOnP_enc (f : Nat → Bool) (hsl : f 0x2F = true) (s : List Nat)
+    (hs : ∀ c ∈ s, Spec.isScalar c = true) :
+    splitOnP (· == 0x2F) (Impl.percentEncode f s) =
+      (splitOnP (· == 0x2F) s).map (Impl.percentEncode f) := by
+  induction s with
+  | nil => rfl
+  | cons c cs ih =>
+    have ih' := ih (fun x hx => hs x (List.mem_cons_of_mem _ hx))
+    by_cases hc : c = 0x2F
+    · subst hc
+      rw [percentEncode_ascii_noenc f _ _ (by omega) hsl, splitOnP_cons_sep _ _ _ (by decide),
+        splitOnP_cons_sep _ _ _ (by decide), ih']
+      rfl
+    · rw [percentEncode_cons', splitOnP_append_nosep _ _ _
+        (piece_no_slash f c (hs c List.mem_cons_self) hc), ih',
+        splitOnP_cons_other _ c cs (by simpa using hc)]
+      cases hsp : splitOnP (· == 0x2F) cs with
+      | nil => exact absurd hsp (splitOnP_ne_nil _ cs)
+      | cons h t =>
+        simp only [List.map_cons, List.headD_cons, List.tail_cons, List.cons.injEq, and_true]
+        rw [percentEncode_cons']
+
+abbrev encP (t : List Nat) : List Nat := Impl.percentEncode Impl.posixPathNoEnc t
+
+theorem posix_sub_path : ∀ c, c < 128 → Impl.posixPathNoEnc c = true → Impl.pathNoEnc c = true := by
+  decide +kernel
+
+/-- the path state's own encoding leaves the already encoded segment unchanged -/
+theorem reencode_id (t : List Nat) (ht : ∀ c ∈ t, Spec.isScalar c = true) :
+    Impl.percentEncode Impl.pathNoEnc (encP t) = encP t := by
+  refine percentEncode_fix Impl.pathNoEnc (by decide) (hex_side _ (by decide +kernel)) ?_
+  refine PctWord.mono ?_ (percentEncode_word Impl.posixPathNoEnc t ht)
+  intro c hc
+  simp only [Bool.and_eq_true, decide_eq_true_eq] at hc
+  simp [hc.1, posix_sub_path c (by omega) hc.2]
+
+/-- one iteration of the parse_path loop on an encoded segment: "." is dropped (an empty segment is
+    appended when it is the last one), anything else is appended as it is -/
+theorem pathSegment_enc (u : Url) (t : List Nat) (isLast : Bool)
+    (ht : ∀ c ∈ t, Spec.isScalar c = true) (hdd : t ≠ dd) :
+    Impl.pathSegment u (encP t) isLast =
+      { u with path := u.path ++
+          (if t = [0x2E] then (if isLast then [[]] else []) else [encP t]) } := by
+  have h2 : Impl.doubleDot (encP t) = false := by
+    cases h : Impl.doubleDot (encP t) with
+    | false => rfl
+    | true => exact absurd ((enc_doubleDot _ (by decide) (by decide) t ht).1 h) hdd
+  unfold Impl.pathSegment
+  rw [h2]
+  simp only [Bool.false_eq_true, if_false]
+  by_cases h1 : t = [0x2E]
+  · have : Impl.singleDot (encP t) = true := (enc_singleDot _ (by decide) (by decide) t ht).2 h1
+    rw [this, if_pos h1]
+    cases isLast <;> simp
+  · have : Impl.singleDot (encP t) = false := by
+      cases h : Impl.singleDot (encP t) with
+      | false => rfl
+      | true => exact absurd ((enc_singleDot _ (by decide) (by decide) t ht).1 h) h1
+    rw [this, if_neg h1]
+    simp only [Bool.false_eq_true, if_false]
+    have hre := reencode_id t ht
+    split
+    · rename_i a b he
+      have hb := posix_safe t ht b (by show b ∈ encP t; rw [he]; simp)
+      have : Impl.isWindowsDrive a b = false := by
+        unfold SafePosix at hb
+        simp only [Impl.isWindowsDrive, Bool.and_eq_false_iff, Bool.or_eq_false_iff, beq_eq_false_iff_ne]
+        right; omega
+      rw [this]
+      simp only [Bool.and_false, Bool.false_eq_true, if_false]
+      rw [hre]
+    · rw [hre]
+
+def posixPathOf : List (List Nat) → List (List Nat)
+  | [] => []
+  | [t] => if t = [0x2E] then [[]] else [encP t]
+  | t :: rest => (if t = [0x2E] then [] else [encP t]) ++ posixPathOf rest
+
+theorem posixPathOf_cons2 (t t2 : List Nat) (r2 : List (List Nat)) :
+    posixPathOf (t :: t2 :: r2) = (if t = [0x2E] then [] else [encP t]) ++ posixPathOf (t2 :: r2) := by
+  rw [posixPathOf]; simp
+
+theorem pathSegments_cons2 (u : Url) (a b : List Nat) (r : List (List Nat)) :
+    Impl.pathSegments u (a :: b :: r) = Impl.pathSegments (Impl.pathSegment u a false) (b :: r) := by
+  rw [Impl.pathSegments]; simp
+
+theorem pathSegments_enc (segs : List (List Nat)) : ∀ (u : Url),
+    (∀ t ∈ segs, (∀ c ∈ t, Spec.isScalar c = true) ∧ t ≠ dd) →
+    Impl.pathSegments u (segs.map encP) = { u with path := u.path ++ posixPathOf segs } := by
+  induction segs with
+  | nil => intro u _; simp [Impl.pathSegments, posixPathOf]
+  | cons t rest ih =>
+    intro u h
+    obtain ⟨ht, hdd⟩ := h t List.mem_cons_self
+    cases rest with
+    | nil =>
+      simp only [List.map_cons, List.map_nil, Impl.pathSegments, posixPathOf]
+      rw [pathSegment_enc u t true ht hdd]
+      by_cases h1 : t = [0x2E] <;> simp [h1]
+    | cons t2 r2 =>
+      rw [List.map_cons, List.map_cons, pathSegments_cons2, ← List.map_cons,
+        ih _ (fun x hx => h x (List.mem_cons_of_mem _ hx)), pathSegment_enc u t false ht hdd,
+        posixPathOf_cons2]
+      by_cases h1 : t = [0x2E] <;> simp [h1]
+
+theorem mem_splitOnP (p : Nat → Bool) (l : List Nat) : ∀ t ∈ splitOnP p l, ∀ c ∈ t, c ∈ l := by
+  induction l with
+  | nil => intro t ht c hc; simp [splitOnP] at ht; subst ht; simp at hc
+  | cons a l ih =>
+    intro t ht c hc
+    cases hp : p a with
+    | true =>
+      rw [splitOnP_cons_sep p a l hp] at ht
+      rcases List.mem_cons.1 ht with rfl | ht
+      · simp at hc
+      · exact List.mem_cons_of_mem _ (ih t ht c hc)
+    | false =>
+      rw [splitOnP_cons_other p a l hp] at ht
+      rcases List.mem_cons.1 ht with rfl | ht
+      · rcases List.mem_cons.1 hc with rfl | hc
+        · exact List.mem_cons_self
+        · apply List.mem_cons_of_mem
+          have hne := splitOnP_ne_nil p l
+          cases hs : splitOnP p l with
+          | nil => exact absurd hs hne
+          | cons x r =>
+            rw [hs] at hc
+            exact ih x (by rw [hs]; exact List.mem_cons_self) c hc
+      · exact List.mem_cons_of_mem _ (ih t (List.mem_of_mem_tail ht) c hc)
+
+/-- the path of the URL made from a POSIX path -/
+theorem parsePath_posix (s' : List Nat) (hs : ∀ c ∈ s', Spec.isScalar c = true)
+    (hdd : dd ∉ splitOnP (· == 0x2F) s') :
+    Impl.parsePath fileUrl0 (encP s') =
+      { fileUrl0 with path := posixPathOf (splitOnP (· == 0x2F) s') } := by
+  unfold Impl.parsePath
+  have e7 : fileUrl0.isSpecial = true := by decide
+  rw [e7]
+  simp only [if_true]
+  rw [splitOnP_congr Impl.isSlash (· == 0x2F) (encP s') (by
+    intro c hc
+    have := posix_safe s' hs c hc
+    unfold SafePosix at this
+    simp only [Impl.isSlash]
+    have : (c == 0x5C) = false := by simp only [beq_eq_false_iff_ne]; omega
+    rw [this, Bool.or_false]),
+    splitOnP_enc _ (by decide) s' hs,
+    pathSegments_enc _ fileUrl0 (fun t ht =>
+      ⟨fun c hc => hs c (mem_splitOnP _ _ t ht c hc), fun e => hdd (e ▸ ht)⟩)]
+  rfl
+
+theorem join_split (l : List Nat) :
+    (splitOnP (· == 0x2F) l).flatMap (fun seg => 0x2F :: seg) = 0x2F :: l := by
+  induction l with
+  | nil => rfl
+  | cons c cs ih =>
+    by_cases hc : c = 0x2F
+    · subst hc
+      rw [splitOnP_cons_sep _ _ _ (by decide), List.flatMap_cons, ih]
+      rfl
+    · rw [splitOnP_cons_other _ c cs (by simpa using hc)]
+      cases hs : splitOnP (· == 0x2F) cs with
+      | nil => exact absurd hs (splitOnP_ne_nil _ cs)
+      | cons h t =>
+        rw [hs] at ih
+        simp only [List.flatMap_cons, List.cons_append, List.cons.injEq, true_and] at ih
+        simp only [List.headD_cons, List.tail_cons, List.flatMap_cons, List.cons_append, ih]
+
+theorem posixPathOf_nodot (segs : List (List Nat)) (hne : segs ≠ []) (h : [0x2E] ∉ segs) :
+    posixPathOf segs = segs.map encP := by
+  induction segs with
+  | nil => exact absurd rfl hne
+  | cons t rest ih =>
+    have ht : t ≠ [0x2E] := fun e => h (e ▸ List.mem_cons_self)
+    cases rest with
+    | nil => simp [posixPathOf, ht]
+    | cons t2 r2 =>
+      rw [posixPathOf_cons2, ih (by simp) (fun hm => h (List.mem_cons_of_mem _ hm))]
+      simp [ht]
+
+theorem flatMap_enc (segs : List (List Nat)) :
+    (segs.map encP).flatMap (fun seg => 0x2F :: seg) = encP (segs.flatMap (fun seg => 0x2F :: seg)) := by
+  induction segs with
+  | nil => rfl
+  | cons t rest ih =>
+    simp only [List.map_cons, List.flatMap_cons, ih]
+    show _ = encP ((0x2F :: t) ++ _)
+    unfold encP
+    rw [percentEncode_append, percentEncode_ascii_noenc _ _ _ (by omega) (by decide)]
+
+theorem utf8Encode_no_nul (s : List Nat) (hs : ∀ c ∈ s, Spec.isScalar c = true) (h0 : 0 ∉ s) :
+    0 ∉ Spec.utf8Encode s := by
+  induction s with
+  | nil => simp [Spec.utf8Encode]
+  | cons c cs ih =>
+    rw [utf8Encode_cons]
+    intro hm
+    rcases List.mem_append.1 hm with hm | hm
+    · by_cases hc : c < 0x80
+      · rw [utf8EncodeChar_ascii c hc] at hm
+        simp only [List.mem_singleton] at hm
+        exact h0 (hm ▸ List.mem_cons_self)
+      · obtain ⟨b, t, e, -, -, hall⟩ := utf8EncodeChar_hi c (by omega) (scalar_le c (hs c List.mem_cons_self))
+        rw [e] at hm
+        have := (hall 0 hm).1
+        omega
+    · exact ih (fun x hx => hs x (List.mem_cons_of_mem _ hx)) (fun hx => h0 (List.mem_cons_of_mem _ hx)) hm
+
+/-- POSIX round trip: a path without "." segments comes back as its UTF-8 bytes -/
+theorem roundtrip_posix (idna : Idna) (s : List Nat) (u : Url)
+    (hs : ∀ c ∈ s, Spec.isScalar c = true)
+    (h : Impl.urlFromFilePath idna s .posix = some u)
+    (hnd : [0x2E] ∉ splitOnP (· == 0x2F) s) :
+    u.path = (splitOnP (· == 0x2F) (s.drop 1)).map encP ∧
+    Impl.pathText u = encP s ∧
+    Impl.pathFromFileUrl u .posix = some (Spec.utf8Encode s) := by
+  rw [urlFromFilePath_posix] at h
+  have hc : s.head? = some 0x2F ∧ dd ∉ splitOnP (· == 0x2F) s ∧ 0 ∉ s := by
+    apply Classical.byContradiction
+    intro hn
+    rw [if_neg hn] at h
+    cases h
+  rw [if_pos hc] at h
+  obtain ⟨hhead, hdd, h0⟩ := hc
+  cases s with
+  | nil => simp at hhead
+  | cons c0 r =>
+    have hc0 : c0 = 0x2F := by simpa using hhead
+    subst hc0
+    have hr : ∀ c ∈ r, Spec.isScalar c = true := fun c h' => hs c (List.mem_cons_of_mem _ h')
+    rw [splitOnP_cons_sep _ _ _ (by decide)] at hdd hnd
+    have hdd' : dd ∉ splitOnP (· == 0x2F) r := fun hm => hdd (List.mem_cons_of_mem _ hm)
+    have hnd' : [0x2E] ∉ splitOnP (· == 0x2F) r := fun hm => hnd (List.mem_cons_of_mem _ hm)
+    rw [percentEncode_ascii_noenc _ _ _ (by omega) (by decide),
+      parse_file_url idna _ (fun c h' => by
+        have := posix_safe r hr c h'
+        unfold SafePosix at this; omega)] at h
+    simp only [Option.some.injEq] at h
+    have hp := parsePath_posix r hr hdd'
+    rw [show Impl.percentEncode Impl.posixPathNoEnc r = encP r from rfl, hp,
+      posixPathOf_nodot _ (splitOnP_ne_nil _ r) hnd'] at h
+    have hpath : u.path = (splitOnP (· == 0x2F) r).map encP := by rw [← h]
+    have htext : Impl.pathText u = encP (0x2F :: r) := by
+      rw [← h]
+      show ((splitOnP (· == 0x2F) r).map encP).flatMap (fun seg => 0x2F :: seg) = _
+      rw [flatMap_enc, join_split]
+    refine ⟨hpath, htext, ?_⟩
+    have hfile : u.isFile = true := by rw [← h]; exact (by decide : fileUrl0.isFile = true)
+    have hhost : u.hostText = [] := by rw [← h]; rfl
+    have hdec : Impl.percentDecode (Impl.pathText u) = Spec.utf8Encode (0x2F :: r) := by
+      rw [htext]; exact percentDecode_percentEncode _ _ hs (by decide)
+    have hnul := utf8Encode_no_nul _ hs h0
+    unfold Impl.pathFromFileUrl
+    simp only [hfile, hhost, hdec, Bool.not_true, Bool.false_eq_true, if_false, ne_eq, not_true]
+    have : ((Spec.utf8Encode (0x2F :: r)).any (· == 0)) = false := by
+      cases ha : (Spec.utf8Encode (0x2F :: r)).any (· == 0) with
+      | false => rfl
+      | true => exact absurd ((any_zero_iff _).1 ha) hnul
+    simp only [this, Bool.false_eq_true, if_false]
+
 end Upa.Proofs.C17
+
